@@ -86,7 +86,8 @@ type gtFunc struct {
 	consts  map[types.Object]bool       // integer locals assigned constants only
 	assigns map[types.Object][]gtAssign // in source order
 	temps   map[types.Object]string
-	loops   []*gtLoop // enclosing counted loops while building
+	callTmp map[types.Object]*types.Func // locals holding the text returned by a sibling generator
+	loops   []*gtLoop                    // enclosing counted loops while building
 }
 
 func gtAnd(a, b gtCond) gtCond {
@@ -200,19 +201,60 @@ func gtBuild(info *types.Info, fd *ast.FuncDecl) *gtFunc {
 			f.consts[o] = true
 		}
 	}
+	// locals assigned once from a sibling generator: text, name, n := proc.threadDeclarations(…)
+	f.callTmp = map[types.Object]*types.Func{}
+	ast.Inspect(fd.Body, func(m ast.Node) bool {
+		as, ok := m.(*ast.AssignStmt)
+		if !ok || len(as.Rhs) != 1 || len(as.Lhs) == 0 {
+			return true
+		}
+		call, ok := ast.Unparen(as.Rhs[0]).(*ast.CallExpr)
+		if !ok {
+			return true
+		}
+		fn, ok := core_CalleeFunc(info, call)
+		if !ok || fn.Pkg() == nil || fn.Pkg() != info.ObjectOf(fd.Name).Pkg() || gtNameFunc(fn) {
+			return true
+		}
+		sig, ok := fn.Type().(*types.Signature)
+		if !ok || sig.Results().Len() == 0 {
+			return true
+		}
+		if b, ok := sig.Results().At(0).Type().Underlying().(*types.Basic); !ok || b.Info()&types.IsString == 0 {
+			return true
+		}
+		if id, ok := as.Lhs[0].(*ast.Ident); ok {
+			if o := info.ObjectOf(id); o != nil && o != f.acc && f.singleDef(o) != nil || (o != nil && o != f.acc && len(as.Lhs) > 1 && as.Tok == token.DEFINE) {
+				f.callTmp[o] = fn
+				delete(f.temps, o)
+			}
+		}
+		return true
+	})
 	f.tree = f.block(fd.Body.List, gcTrue{})
 	return f
 }
 
 func isIntObj(o types.Object) bool {
 	b, ok := o.Type().Underlying().(*types.Basic)
-	return ok && b.Info()&types.IsInteger != 0
+	return ok && (b.Info()&types.IsInteger != 0 || b.Info()&types.IsBoolean != 0)
+}
+
+func isBoolObj(o types.Object) bool {
+	b, ok := o.Type().Underlying().(*types.Basic)
+	return ok && b.Info()&types.IsBoolean != 0
 }
 
 func gtConstInt(info *types.Info, e ast.Expr) (int64, bool) {
 	tv, ok := info.Types[e]
 	if !ok || tv.Value == nil {
 		return 0, false
+	}
+	if tv.Value.Kind() == constant.Bool {
+		if constant.BoolVal(tv.Value) {
+			return 1, true
+		}
+		return 0, true
 	}
 	v := constant.ToInt(tv.Value)
 	if v.Kind() != constant.Int {
@@ -516,6 +558,11 @@ func (f *gtFunc) pieces(e ast.Expr, seq *gtSeq, pos token.Pos, skipAcc bool) {
 			continue
 		}
 		if id, ok := ast.Unparen(l).(*ast.Ident); ok {
+			if fn, ok := f.callTmp[f.info.ObjectOf(id)]; ok {
+				flush()
+				seq.items = append(seq.items, &gtCall{fn: fn, pos: id.Pos()})
+				continue
+			}
 			if t, ok := f.temps[f.info.ObjectOf(id)]; ok {
 				sb.WriteString(t)
 				continue
@@ -608,6 +655,15 @@ func (f *gtFunc) norm(e ast.Expr) string {
 }
 
 func (f *gtFunc) isModeExpr(e ast.Expr) bool {
+	if id, ok := ast.Unparen(e).(*ast.Ident); ok {
+		// mode := arch.Modes[0]
+		if def := f.singleDef(f.info.ObjectOf(id)); def != nil {
+			if _, again := ast.Unparen(def).(*ast.Ident); !again {
+				return f.isModeExpr(def)
+			}
+		}
+		return false
+	}
 	ix, ok := ast.Unparen(e).(*ast.IndexExpr)
 	if !ok {
 		return false
@@ -629,6 +685,11 @@ func core_FieldOf(info *types.Info, e ast.Expr) *types.Var {
 }
 
 func (f *gtFunc) cond(e ast.Expr) gtCond {
+	if id, ok := ast.Unparen(e).(*ast.Ident); ok {
+		if o := f.info.ObjectOf(id); o != nil && f.consts[o] && isBoolObj(o) {
+			return gcLocal{o, token.NEQ, 0}
+		}
+	}
 	switch x := ast.Unparen(e).(type) {
 	case *ast.UnaryExpr:
 		if x.Op == token.NOT {
